@@ -7,7 +7,8 @@ From AV Require Import Spec.C02 Proofs.PlanProof Proofs.C01Proof Proofs.C02Proof
    each once, children first, never the target nor its prerequisites; an empty plan only when the database
    is at the target; refusal (RangeNotAncestorError) exactly for an empty set away from the target *)
 Theorem C02_model_holds : forall G, wf_refs G -> ~ cyclic (all_down G) -> ndeps_ok G ->
-  forall target branch Cur, C02_holds (G, target, branch, Cur) (downgrade_plan G target branch Cur).
+  forall rq target branch Cur, ref_agrees02 G Cur rq target branch = true ->
+  C02_holds (G, rq, target, branch, Cur) (downgrade_plan G target branch Cur).
 Proof. exact downgrade_plan_result. Qed.
 Print Assumptions C02_model_holds.
 
@@ -21,8 +22,8 @@ Theorem C02_plan_exact : forall G target branch Cur plan,
        forall c, AncOf G Cur c -> In r (all_down G c) -> In c pre) /\
     (forall t, target = Some t -> forall a, Anc G t a -> ~ In a plan) /\
     (plan = [] -> forall t, target = Some t -> In t Cur).
-Proof. intros G target branch Cur plan WF AC NOK E. pose proof (downgrade_plan_result G WF AC NOK target branch Cur) as H.
-  rewrite E in H. exact H. Qed.
+Proof. intros G target branch Cur plan WF AC NOK E. pose proof (downgrade_plan_result G WF AC NOK DOther target branch Cur eq_refl) as H.
+  rewrite E in H. exact (proj2 H). Qed.
 Print Assumptions C02_plan_exact.
 
 (* never out of fuel, never `assert not todo`; the only refusals are the two documented ones, each with its reason *)
@@ -32,13 +33,13 @@ Theorem C02_total : forall G target branch Cur e,
   (e = PERange /\ exists t, target = Some t /\ ~ In t Cur /\
        forall r, ~ (DescOf G (roots_of G target branch) r /\ AncOf G Cur r))
   \/ (e = PERevision /\ roots_of G target branch = [] /\ branch <> None).
-Proof. intros G target branch Cur e WF AC NOK E. pose proof (downgrade_plan_result G WF AC NOK target branch Cur) as H.
-  rewrite E in H. destruct e; try contradiction; [left|right]; auto. Qed.
+Proof. intros G target branch Cur e WF AC NOK E. pose proof (downgrade_plan_result G WF AC NOK DOther target branch Cur eq_refl) as H.
+  rewrite E in H. destruct H as [_ H]. destruct e; try contradiction; [left|right]; auto. Qed.
 Print Assumptions C02_total.
 
 Theorem C02_decider_sound : forall G, wf_refs G -> ~ cyclic (all_down G) ->
-  forall target branch Cur out,
-  check_C02 (G, target, branch, Cur) out = true -> C02_holds (G, target, branch, Cur) out.
+  forall rq target branch Cur out,
+  check_C02 (G, rq, target, branch, Cur) out = true -> C02_holds (G, rq, target, branch, Cur) out.
 Proof. exact decider_sound. Qed.
 Print Assumptions C02_decider_sound.
 
@@ -48,6 +49,8 @@ Definition ex_G : graph :=
    mkRev 4 [] [] [] []; mkRev 5 [4] [3] [3] []]%N.
 Example C02_nonvacuous : wf_graphb ex_G = true
   /\ downgrade_plan ex_G (Some 1)%N None [5]%N = POk [5; 3]%N
-  /\ check_C02 (ex_G, Some 1, None, [5])%N (POk [5; 3]%N) = true
-  /\ downgrade_plan ex_G (Some 5)%N None [3]%N = PErr PERange.
-Proof. vm_compute. auto. Qed.
+  /\ check_C02 (ex_G, DId 1, Some 1, None, [5])%N (POk [5; 3]%N) = true
+  /\ downgrade_plan ex_G (Some 5)%N None [3]%N = PErr PERange
+  /\ ref_down ex_G [5]%N (DRelCur 1) = R2Ok (Some 4)%N (Some 5)%N /\ ref_down ex_G [3]%N (DRelCur 1) = R2Error
+  /\ ref_down ex_G [2]%N (DRelId 1 2) = R2Ok None None.
+Proof. vm_compute. auto 10. Qed.
